@@ -9,6 +9,12 @@ def csv(l):
     return ",".join(str(x) for x in l)
 
 
+def nlmix(rng, dist):
+    """half of the cases get the newline alphabet (upper-case dist letter): payloads with interior, double and
+    trailing '\\n' and "\\r\\n"; the driver frames records by the length in the header, never by '\\n'"""
+    return dist.upper() if dist != "z" and rng.random() < 0.5 else dist
+
+
 class C09(Check):
     prop = "C09"
     vfiles = ["Tie/Tie_C09.v", "Properties/Properties_C09.v", "Extract/Extract_Sched.v"]
@@ -39,7 +45,10 @@ class C09(Check):
                   "implementation runs are a sample of real interleavings (schedule perturbation by yields and a dwell inside the "
                   "buffer), never all of them")
     rule = ("cases = (sink out|err) x (2..32 threads, per-thread record counts) x (payload length distribution z=0, s<=16, m<=256, "
-            "l=1024..4096, x=extremes) x (mode n plain, y yield between bytes, d dwell inside the buffer) x seed: a small grid with the "
+            "l=1024..4096, x=extremes; upper-case letter = the same lengths with interior / double / trailing newlines and CR LF in the "
+            "payload — records are arbitrary byte strings in the model (no lemma assumes newline-free records) and the driver frames "
+            "them by the length and checksum in the header, never by a newline: any output that is not a concatenation of whole expected "
+            "records is INTERLEAVED) x (mode n plain, y yield between bytes, d dwell inside the buffer) x seed: a small grid with the "
             "observed order attached (judged by the extracted valid_orderb), high-contention cases, uneven cases (idle threads), "
             "many-thread cases (9, 12, 16, 24, 32 threads, more than the cores, piling up on the sink mutex), "
             "`same` cases (all threads on ONE logger type and severity, one-expression statements with nine streamed items, up to "
@@ -80,7 +89,7 @@ class C09(Check):
                     for dist in "zsm":
                         for mode in "nyd":
                             counts = [rng.randint(1, 6) for _ in range(n)]
-                            yield "%s %s %s %s %d ord" % (sink, csv(counts), dist, mode, rng.randint(0, 99999)), "grid-small-ord"
+                            yield "%s %s %s %s %d ord" % (sink, csv(counts), nlmix(rng, dist), mode, rng.randint(0, 99999)), "grid-small-ord"
         # (ii) contention: many records, long payloads
         for rep in range(1 if quick else 10):
             for sink in sinks:
@@ -89,7 +98,7 @@ class C09(Check):
                         for mode in "ny":
                             hi = 150 if quick else rng.choice([200, 600, 2000 if dist == "m" else 800])
                             counts = [rng.randint(hi // 3, hi) for _ in range(n)]
-                            yield "%s %s %s %s %d" % (sink, csv(counts), dist, mode, rng.randint(0, 99999)), "contention"
+                            yield "%s %s %s %s %d" % (sink, csv(counts), nlmix(rng, dist), mode, rng.randint(0, 99999)), "contention"
         # (iii) uneven: idle threads, one busy thread, dwell with several threads
         for sink in sinks:
             for _ in range(4 if quick else 20):
@@ -105,7 +114,7 @@ class C09(Check):
                     for dist in "zsm":
                         per2 = per // 4 if dist == "m" else per
                         counts = [rng.randint(per2 // 2, per2) for _ in range(n)]
-                        yield "%s %s %s n %d same" % (sink, csv(counts), dist, rng.randint(0, 99999)), "same-logger-volume"
+                        yield "%s %s %s n %d same" % (sink, csv(counts), nlmix(rng, dist), rng.randint(0, 99999)), "same-logger-volume"
                 yield "%s %s s y %d same" % (sink, csv([1500] * 4), rng.randint(0, 99999)), "same-logger-volume"
                 yield "%s %s s d %d ord same" % (sink, csv([rng.randint(2, 9) for _ in range(3)]), rng.randint(0, 99999)), "same-logger-volume"
         # (iv-b) more threads than the 2..8 of the grids (and than the 16 cores): 9..32 threads pile up on the sink's mutex,
@@ -114,11 +123,21 @@ class C09(Check):
             for sink in sinks:
                 for n in (9, 12, 16, 24, 32):
                     per = rng.randint(80, 200)
-                    yield "%s %s %s y %d same" % (sink, csv([per] * n), rng.choice("ml"), rng.randint(0, 99999)), "many-threads"
-                    yield "%s %s %s %s %d" % (sink, csv([rng.randint(40, 120) for _ in range(n)]), rng.choice("sml"), rng.choice("ny"), rng.randint(0, 99999)), "many-threads"
+                    yield "%s %s %s y %d same" % (sink, csv([per] * n), rng.choice("mlML"), rng.randint(0, 99999)), "many-threads"
+                    yield "%s %s %s %s %d" % (sink, csv([rng.randint(40, 120) for _ in range(n)]), rng.choice("smlSML"), rng.choice("ny"), rng.randint(0, 99999)), "many-threads"
                 for n in (9, 16, 32):
                     yield "%s %s m y %d same tsan" % (sink, csv([rng.randint(40, 100)] * n), rng.randint(0, 99999)), "tsan-many-threads"
                 yield "%s %s s n %d tsan" % (sink, csv([60] * 24), rng.randint(0, 99999)), "tsan-many-threads"
+        # (iv-c) payloads containing line terminators, every length class, `same` and mixed loggers, plain and TSan build:
+        #        a record must stay one contiguous run whatever bytes it contains
+        for rep in range(1 if quick else 6):
+            for sink in sinks:
+                for dist in "SMLX":
+                    n = rng.choice([2, 4, 8, 12])
+                    yield "%s %s %s %s %d same" % (sink, csv([rng.randint(100, 400)] * n), dist, rng.choice("ny"), rng.randint(0, 99999)), "newline-payload"
+                    yield "%s %s %s %s %d" % (sink, csv([rng.randint(60, 300) for _ in range(n)]), dist, rng.choice("ny"), rng.randint(0, 99999)), "newline-payload"
+                yield "%s %s S n %d same tsan" % (sink, csv([400] * 4), rng.randint(0, 99999)), "tsan-newline-payload"
+                yield "%s %s M y %d tsan" % (sink, csv([150] * 6), rng.randint(0, 99999)), "tsan-newline-payload"
         # (v) a batch on the ThreadSanitizer build in the quick tier as well (volumes kept small: a racy tree makes
         #     TSan report on every access)
         if quick:
@@ -181,8 +200,8 @@ class C09(Check):
         if max(cs) > 1:
             yield " ".join([w[0], csv([max(1, c // 2) if c else 0 for c in cs])] + tail)
         for d in "sm":
-            if w[2] in "lx" or (w[2] == "m" and d == "s"):
-                yield " ".join([w[0], w[1], d] + w[3:])
+            if w[2].lower() in "lx" or (w[2].lower() == "m" and d == "s"):
+                yield " ".join([w[0], w[1], d.upper() if w[2].isupper() else d] + w[3:])
 
     def extra(self, ctx):
         cov = ctx.setdefault("coverage_extra", {})
